@@ -3,10 +3,18 @@
 package c16
 
 import (
+	"context"
 	"encoding/json"
 	"fmt"
 	"regexp"
 	"sort"
+	"time"
+
+	"github.com/prometheus/client_golang/prometheus"
+	"github.com/prometheus/common/promslog"
+	"google.golang.org/protobuf/types/known/timestamppb"
+
+	"github.com/prometheus/alertmanager/eventrecorder"
 
 	"github.com/prometheus/common/model"
 
@@ -292,4 +300,167 @@ func runSite(run *vh.Run, c *Case) {
 	c.Show = fmt.Sprintf("%s vs %v", showM(m), ls)
 	term := vh.App("CSite", tableFor([]M{m}, ls), vhm.Matcher(lm), vhm.Labels(ls), vh.List(parts))
 	run.Add(term, c, m.T >= 2)
+}
+
+// ---------- silences through the public path: Set, then Query(QMatches) / Silencer.Mutes ----------
+
+// what silence validation requires of a matcher set: non-empty, and not every matcher matches the empty string
+// (matchesEmpty: "=" with an empty value, "=~" matching ""; negative matchers never count as matching empty)
+func silSetValid(ms []M) bool {
+	if len(ms) == 0 {
+		return false
+	}
+	for _, m := range ms {
+		switch m.T {
+		case 0:
+			if len(m.V) != 0 {
+				return true
+			}
+		case 2:
+			if ok, _ := regexp.MatchString(string(m.V), ""); !ok {
+				return true
+			}
+		default:
+			return true
+		}
+	}
+	return false
+}
+
+func genSilCase(r *vh.Rand) Case {
+	c := Case{Kind: "sil", LS: genLS(r)}
+	n := vh.Pick(r, []int{1, 1, 1, 2, 3})
+	for i := 0; i < n; i++ {
+		for try := 0; ; try++ {
+			var ms []M
+			k := vh.Pick(r, []int{1, 1, 2, 2, 3})
+			for j := 0; j < k; j++ {
+				m := genSemMatcher(r, c.LS)
+				if r.Chance(1, 3) { // more negative matchers, often on a label the set lacks
+					m.T = vh.Pick(r, []int{1, 3})
+					if m.T == 3 {
+						m.V = []byte(vh.Pick(r, semPatterns))
+					} else {
+						m.V = []byte(vh.Pick(r, semValues))
+					}
+				}
+				ms = append(ms, m)
+			}
+			if silSetValid(ms) || try > 20 {
+				c.MSS = append(c.MSS, ms)
+				break
+			}
+		}
+	}
+	return c
+}
+
+var pbTypes = []pb.Matcher_Type{pb.Matcher_EQUAL, pb.Matcher_NOT_EQUAL, pb.Matcher_REGEXP, pb.Matcher_NOT_REGEXP}
+
+func runSil(run *vh.Run, c *Case) {
+	ls := mkLabels(c.LS)
+	ctx := context.Background()
+	var all []M
+	var mset labels.MatcherSet
+	sil := &pb.Silence{Comment: "c16", CreatedBy: "verif"}
+	want := false
+	for _, msj := range c.MSS {
+		ms := labels.Matchers{}
+		pms := &pb.MatcherSet{}
+		conj := true
+		for _, mj := range msj {
+			m, err := realMatcher(mj)
+			if err != nil {
+				panic(err)
+			}
+			ms = append(ms, m)
+			all = append(all, mj)
+			pms.Matchers = append(pms.Matchers, &pb.Matcher{Type: pbTypes[mj.T], Name: string(mj.N), Pattern: string(mj.V)})
+			v, present := ls[model.LabelName(mj.N)]
+			conj = conj && expectHolds(mj, string(v))
+			state := "present"
+			if !present {
+				state = "absent"
+			} else if v == "" {
+				state = "present but empty"
+			}
+			kind := "positive"
+			if mj.T == 1 || mj.T == 3 {
+				kind = "negative"
+			}
+			extra := ""
+			if mj.T >= 2 {
+				if ok, _ := regexp.MatchString("^(?:"+string(mj.V)+")$", ""); ok {
+					extra = ", regexp matches the empty string"
+				}
+			} else if len(mj.V) == 0 {
+				extra = ", empty value"
+			}
+			run.Count("silence_public_path", "label "+state+" x "+kind+" matcher"+extra)
+		}
+		want = want || conj
+		msCopy := ms
+		mset = append(mset, &msCopy)
+		sil.MatcherSets = append(sil.MatcherSets, pms)
+	}
+	var obs []siteObs
+	add := func(n string, got bool) {
+		obs = append(obs, siteObs{n, got})
+		run.Count("silence_public_site", n)
+		if got != want {
+			run.Violate("silence-meaning-differs:"+n, fmt.Sprintf("silence %v on %v: %s says %v, the matchers' meaning is %v", sil.MatcherSets, ls, n, got, want), c)
+		}
+	}
+	// white-box compile path (as in the site cases)
+	if sms, err := silence.VerifCompileMatchers(sil); err == nil {
+		add("silence-compile", sms.Matches(ls))
+	}
+	// public path: a real store
+	st, err := silence.New(silence.Options{Retention: time.Hour, Metrics: prometheus.NewRegistry(), EventRecorder: eventrecorder.NopRecorder()})
+	if err != nil {
+		panic(err)
+	}
+	now := time.Now()
+	sil.StartsAt = timestamppb.New(now.Add(-time.Minute))
+	sil.EndsAt = timestamppb.New(now.Add(time.Hour))
+	if err := st.Set(ctx, sil); err != nil {
+		run.Count("silence_public_site", "Set rejected the silence (validation)")
+	} else {
+		res, _, err := st.Query(ctx, silence.QState(silence.SilenceStateActive), silence.QMatches(ls))
+		if err != nil {
+			panic(err)
+		}
+		add("Silences.Query(QState(active), QMatches)", len(res) == 1)
+		one, _, err := st.Query(ctx, silence.QMatches(ls))
+		if err != nil {
+			panic(err)
+		}
+		add("Silences.Query(QMatches)", len(one) == 1)
+		sr := silence.NewSilencer(st, promslog.NewNopLogger(), eventrecorder.NopRecorder())
+		add("Silencer.Mutes", sr.Mutes(ctx, ls))
+		add("Silencer.Mutes (second call, cached)", sr.Mutes(ctx, ls))
+	}
+	// API filter path for a single list: filter=<String()>... on the alert's labels (no empty values there)
+	if len(c.MSS) == 1 {
+		var fs []string
+		for _, m := range *mset[0] {
+			fs = append(fs, m.String())
+		}
+		if fms, err := v2.VerifParseFilter(fs); err == nil {
+			als := model.LabelSet{}
+			for k, v := range ls {
+				if v != "" {
+					als[k] = v
+				}
+			}
+			add("api-filter", v2.VerifAlertMatchesFilterLabels(&model.Alert{Labels: als}, fms))
+		}
+	}
+	var parts []string
+	for _, o := range obs {
+		parts = append(parts, vh.Pair(vh.Str(o.name), vh.Bool(o.got)))
+	}
+	c.Show = fmt.Sprintf("%d sets vs %v", len(c.MSS), ls)
+	term := vh.App("CSil", tableFor(all, ls), vhm.MatcherSet(mset), vhm.Labels(ls), vh.List(parts))
+	run.Add(term, c, true)
 }
